@@ -280,7 +280,8 @@ HISTORY_NOTE = (" Inputs of the correspondence run include call histories (an ob
                 "evaluation of the real code runs in forked workers of harness/core.fork_map (no shared pool state).")
 EXTRA_NOTE = {
     "C03": CLI_NOTE, "C04": CLI_NOTE + " The stacking list inside extract_base_interactions is compared with find_stackings, also for pairs that are reported as base pairs too.",
-    "C06": CLI_NOTE, "C07": CLI_NOTE, "C11": CLI_NOTE, "C16": CLI_NOTE,
+    "C06": CLI_NOTE, "C07": CLI_NOTE, "C11": CLI_NOTE, "C16": CLI_NOTE, "C02": CLI_NOTE, "C18": CLI_NOTE,
+    "C05": " annotator.main is run on the corpus entry that exists as PDB and as mmCIF (4qln); interaction table, BPSEQ and notation must be identical.",
     "C13": " motif_extractor.main is run under the solver configurations as well; the notation it prints is judged like a returned one.",
     "C19": " adapter.main is run on structure x FR3D listing x option sets (insertion-code siblings, generated listings); CSV / JSON / BPSEQ files are compared with the import functions' results.",
 }
